@@ -32,7 +32,8 @@ enum OpKind
   OP_REMOVE_CB,    // a=instrument b=callback slot
   OP_DESTROY,      // a=instrument
   OP_RECORD,       // a=series (sync gauge stratum) b=value id
-  OP_SLEEP
+  OP_SLEEP,
+  OP_NEW_INSTRS    // a=count: further observable instruments created on the same meter
 };
 enum EvType
 {
@@ -137,6 +138,7 @@ struct World
   nostd::shared_ptr<metrics_api::Meter> meter;
   std::vector<std::shared_ptr<sdkmet::MetricReader>> readers;
   std::vector<nostd::shared_ptr<metrics_api::ObservableInstrument>> instrs;
+  std::vector<nostd::shared_ptr<metrics_api::ObservableInstrument>> extra;  // OP_NEW_INSTRS
   std::vector<std::vector<CbState>> cb;  // [instr][slot]
   std::vector<Collection> collections;
   std::vector<int> col_count;
@@ -392,6 +394,24 @@ void run_program(World &w, const TaskProg &t)
       case OP_SLEEP:
         std::this_thread::sleep_for(std::chrono::nanoseconds(op.a));
         break;
+      case OP_NEW_INSTRS:
+        // the application keeps creating instruments (none with callbacks) while readers
+        // collect: the meter's stream registry grows - and rehashes - under the collectors
+        if (w.meter)
+          for (int64_t k = 0; k < op.a && k < 64; ++k)
+          {
+            std::string n = fmt("extra%zu", w.extra.size());
+            nostd::shared_ptr<metrics_api::ObservableInstrument> ins;
+            {
+              InOp io;
+              ins = (k & 1) ? w.meter->CreateInt64ObservableGauge(n)
+                            : w.meter->CreateInt64ObservableCounter(n);
+            }
+            w.extra.push_back(ins);
+            vsim::yield();
+          }
+        vsim::probe("async.instruments_created_during_collections");
+        break;
     }
   }
 }
@@ -500,6 +520,7 @@ void body(const Case &c)
   for (int r = 0; r < nread; ++r)
     do_collect(w, r);
   w.instrs.clear();
+  w.extra.clear();
   w.meter = nostd::shared_ptr<metrics_api::Meter>(nullptr);
   w.readers.clear();
   w.prov.reset();
@@ -893,6 +914,13 @@ void generate(const std::string &, Rng &wl, Rng &fl, Case &c)
       else
         ctl.ops.push_back({OP_DESTROY, i, 0, 0, 0});
     }
+    if (wl.chance(0.2))
+    {
+      static const int64_t counts[] = {14, 20, 31, 45};
+      ctl.ops.insert(ctl.ops.begin() + (long)wl.below(ctl.ops.size() + 1),
+                     {OP_NEW_INSTRS, counts[wl.below(4)], 0, 0, 0});
+      c.stratum += ".many_instruments";
+    }
     c.tasks.push_back(ctl);
   }
   for (int r = 0; r < nread; ++r)
@@ -935,6 +963,8 @@ std::string describe_op(const Case &, int, const Op &op)
       return fmt("destroy obs%lld", (long long)op.a);
     case OP_RECORD:
       return fmt("gauge.Record(%lld, {s=%lld})", (long long)op.b, (long long)op.a);
+    case OP_NEW_INSTRS:
+      return fmt("create %lld more observable instruments on the meter", (long long)op.a);
     case OP_SLEEP:
       return fmt("sleep %.3f ms (simulated)", op.a / 1e6);
   }
